@@ -93,10 +93,11 @@ class MemTransport(asyncio.Transport):
             self.run.probe("frame_split")
         else:
             self._enqueue(("data", data))
-        if act == "kill":
-            self.run.rec("fault", "kill_after_reply", self.sid, None, None, self._others_in_flight())
+        if act in ("kill", "reset"):
+            self.run.rec("fault", "kill_after_reply" if act == "kill" else "reset_after_reply", self.sid, None, None,
+                         self._others_in_flight())
             self.run.fault_state["fired"] = self.run.fault_state.get("fired", 0) + 1
-            self.node.kill()
+            self.node.kill(reset=(act == "reset"))
 
     def _others_in_flight(self):
         return sum(1 for s, v in self.run.in_flight_mosaik.items() if v > 0 and s != self.sid)
